@@ -62,6 +62,35 @@ pub fn exec_raw<F: Family + 'static>(it: &mut Interp<F>, w: usize, name: &str, a
                 Ok(Some(row)) => format!("ok row={}", row),
             })
         }
+        // churn <id> <n>: n times remove the (component-less) entity and insert a new one; no
+        // identifier may come back, and the first one must stay dead (C02)
+        ("churn", 2) => {
+            let first = parse_id(&args[0])?;
+            let n: u64 = args[1].parse().ok()?;
+            if !F::has_entry(world, mk_ident(first)) {
+                return Some("none".into());
+            }
+            let mut cur = first;
+            let mut seen: std::collections::HashSet<Id> = no_lib(std::collections::HashSet::new);
+            no_lib(|| seen.insert(first));
+            let mut reported = false;
+            for k in 0..n {
+                F::remove(world, mk_ident(cur));
+                let p = F::insert(world, &[], &[])?.verif_parts();
+                if !reported && !no_lib(|| seen.insert(p)) {
+                    reported = true;
+                    ledger_error(format!("oracle=reissue identifier {} was issued a second time after {} remove/insert rounds on its slot", fmt_id(p), k + 1));
+                }
+                if !reported && p != first && (F::contains(world, mk_ident(first)) || F::has_entry(world, mk_ident(first))) {
+                    reported = true;
+                    ledger_error(format!("oracle=reissue stale identifier {} resolves again after {} remove/insert rounds on its slot", fmt_id(first), k + 1));
+                }
+                cur = p;
+            }
+            no_lib(|| drop(seen));
+            no_lib(|| it.issued[w].push(cur));
+            Some(format!("ok id={}", fmt_id(cur)))
+        }
         // res set <p> <v>   |   res view <desc> <epoch|->
         ("res", 3) if args[0] == "set" => {
             let p: usize = args[1].parse().ok()?;
